@@ -19,6 +19,77 @@ PROTO_TXT = {0: ["ip", "0"], 6: ["tcp", "6"], 17: ["udp", "17"], 1: ["icmp", "1"
 SKIPS = [None, ["addrgroup"], ["nc_wildcard"], ["addrgroup", "nc_wildcard"], ["nc_wildcard", "addrgroup"]]
 
 
+def exec_config_job(job):
+    """the two entries come out of cisco_acl.acls(config): members are attached by the library from (nested) group sections
+    of the configuration; the event still states the members the configuration defines"""
+    import cisco_acl
+    plat = job["plat"]
+
+    def side(x):
+        return dict(toks=lex.lex(x["line"]), smem=[lex.lex(m) for m in x["smem"]], dmem=[lex.lex(m) for m in x["dmem"]])
+    events = []
+    try:
+        acl = cisco_acl.acls(job["config"], platform=plat)[0]
+        aces = [x for x in acl.items if type(x).__name__ == "Ace"]
+    except Exception as ex:  # noqa
+        return [dict(tid=job["tid"], i=0, act="ShadowOf", plat=plat, vmajor=0, b=side(job["entries"][0]), t=side(job["entries"][0]), exc="Build",
+                     rets=[False] * 5, detail=repr(ex)[:200])]
+    k = 0
+    for ti in range(len(aces)):
+        for bi in range(ti + 1, len(aces)):
+            e = dict(tid=job["tid"], i=k, act="ShadowOf", plat=plat, vmajor=0, b=side(job["entries"][bi]), t=side(job["entries"][ti]), exc="", rets=[False] * 5)
+            try:
+                e["rets"] = [bool(aces[bi].shadow_of(aces[ti], skip=s)) for s in SKIPS]
+            except Exception as ex:  # noqa
+                e["exc"] = core.exc_name(ex)
+            events.append(e)
+            k += 1
+    return events
+
+
+def config_jobs(rng, n, tid0):
+    """IOS configurations: OUTER = some members + group-object INNER, INNER = more members; three or four entries naming OUTER
+    (more than once), INNER and plain addresses built from the same blocks"""
+    from harness.c13 import spellings_member
+    jobs, t = [], tid0
+    for _ in range(n):
+        ln = rng.randint(8, 30)
+        k = rng.randrange(4, 2 ** min(ln, 20) - 8)
+        blocks = [blk(k + j, ln) for j in range(4)]
+        outer_own, inner_own = blocks[: rng.randint(1, 2)], blocks[2: 2 + rng.randint(1, 2)]
+
+        def mem_lines(ws):
+            return [rng.choice([x for x in spellings_member(w, "ios") if "/" not in x] or ["host 10.0.0.1"]) for w in ws]
+
+        def ace_addr(w):
+            return rng.choice([x for x in spellings_ace(w, "ios") if "/" not in x])
+        nested_first = rng.random() < 0.5
+        sec_outer = ["object-group network OUTER"] + [" " + m for m in mem_lines(outer_own)] + [" group-object INNER"]
+        sec_inner = ["object-group network INNER"] + [" " + m for m in mem_lines(inner_own)]
+        act = rng.choice(["permit", "deny"])
+        flat_outer = [ace_addr(w) for w in outer_own + inner_own]
+        flat_inner = [ace_addr(w) for w in inner_own]
+        pool = [dict(line=f"{act} ip object-group OUTER any", smem=flat_outer, dmem=[]),
+                dict(line=f"{act} ip {ace_addr(rng.choice(blocks))} any", smem=[], dmem=[]),
+                dict(line=f"{act} tcp object-group OUTER any", smem=flat_outer, dmem=[]),
+                dict(line=f"{act} ip object-group INNER any", smem=flat_inner, dmem=[]),
+                dict(line=f"{act} udp any object-group OUTER", smem=[], dmem=flat_outer)]
+        entries = [pool[0]] + rng.sample(pool[1:], rng.randint(2, 3))
+        rng.shuffle(entries)
+        acl_sec = ["ip access-list extended A"] + [" " + x["line"] for x in entries]
+        secs = [sec_inner, sec_outer] if nested_first else [sec_outer, sec_inner]
+        pos = rng.randint(0, 2)
+        secs.insert(pos, acl_sec)
+        jobs.append(dict(tid=t, plat="ios", config="\n".join("\n".join(x) for x in secs) + "\n", entries=entries, origin="config-nested-groups",
+                         b=entries[-1], t=entries[0]))
+        t += 1
+    return jobs
+
+
+def exec_any(job):
+    return exec_config_job(job) if "config" in job else exec_job(job)
+
+
 def exec_job(job):
     from cisco_acl import Ace, Address
     plat = job["plat"]
@@ -367,7 +438,8 @@ def run_shadow(prop, tier, seed, groups):
     if groups:
         jobs += crossed_jobs(rng, 400 if tier == "quick" else 10000, len(jobs) + 1)
         jobs += adjacent_jobs(rng, 300 if tier == "quick" else 8000, len(jobs) + 1)
-    ev_lists = core.pmap(exec_job, jobs)
+        jobs += config_jobs(rng, 250 if tier == "quick" else 5000, len(jobs) + 1)
+    ev_lists = core.pmap(exec_any, jobs)
     events = [e for evs in ev_lists for e in evs]
     verdicts, vstats = core.validate("Trace_Shadow", events)
     by_tid = {j["tid"]: (j, evs) for j, evs in zip(jobs, ev_lists)}
@@ -406,7 +478,7 @@ def replay_shadow(path):
     with open(path) as f:
         r = json.load(f)
     core._init_worker(core.REPO)
-    evs = exec_job(r["case"])
+    evs = exec_any(r["case"])
     verdicts, _ = core.validate("Trace_Shadow", evs, nchunks=1)
     for v in verdicts:
         print("REPLAY verdict:", v)
